@@ -81,7 +81,7 @@ impl Check for C10 {
             .boxed()
     }
     fn rule(&self) -> String {
-        "a strong-equivalence task over two random programs, or (1 in 3) an external-equivalence task (program or specification, user guide, 2 in 3 with a proof outline of lemmas and an inductive lemma), 1-20 problems, is first run with --no-proof-search --save-problems; then `verify` runs with a stand-in `vampire` first in PATH that stores its stdin and answers by plan (keyed by the SHA-256 of the problem text): each problem gets one of {Theorem, Theorem or Timeout after 8 KB of other output, GaveUp followed by Theorem in one run (counts as not proven: a status other than Theorem was printed), CounterSatisfiable, ContradictoryAxioms, Timeout, MemoryOut, GaveUp, Error, unknown status word, no status line, non-UTF-8 output, Theorem with non-zero exit, Theorem and then killed by a signal, no status with non-zero exit, no status on stdout but a status-like line on stderr, killed by signal} and a delay of 0-40 ms, with 1-8 (or auto) prover instances; half of the plans have zero or exactly one non-Theorem outcome at a generated position; plus runs with the executable missing and with a prover that exits without reading; oracle: every stored stdin is byte-identical to a saved file and the multisets agree (each problem handed over exactly once), the files saved by both runs agree (also when the second directory already holds files of the same names that are longer, or as long with another content), problem names are distinct, stdout says Success iff every planned outcome prints SZS status Theorem, otherwise Failure, every named status line matches the plan, exit status 0; non-trivial = at least 2 problems and at least 2 instances with zero or one non-Theorem outcome; distinct by problems + plan + instances".into()
+        "a strong-equivalence task over two random programs, or (1 in 3) an external-equivalence task (program or specification, user guide, 2 in 3 with a proof outline of lemmas and an inductive lemma), 1-20 problems, is first run with --no-proof-search --save-problems; then `verify` runs with a stand-in `vampire` first in PATH that stores its stdin and answers by plan (keyed by the SHA-256 of the problem text): each problem gets one of {Theorem, Theorem or Timeout after 8 KB of other output, GaveUp followed by Theorem in one run (counts as not proven: a status other than Theorem was printed), CounterSatisfiable, ContradictoryAxioms, Timeout, MemoryOut, GaveUp, Error, unknown status word, no status line, non-UTF-8 output, Theorem with non-zero exit, Theorem and then killed by a signal, no status with non-zero exit, no status on stdout but a status-like line on stderr, killed by signal} and a delay of 0-40 ms, with 1-8 (or auto) prover instances and 1-3 (or auto, or default) cores per prover; half of the plans have zero or exactly one non-Theorem outcome at a generated position; plus runs with the executable missing and with a prover that exits without reading; oracle: every stored stdin is byte-identical to a saved file and the multisets agree (each problem handed over exactly once), the files saved by both runs agree (also when the second directory already holds files of the same names that are longer, or as long with another content), problem names are distinct, stdout says Success iff every planned outcome prints SZS status Theorem, otherwise Failure, every named status line matches the plan, exit status 0; non-trivial = at least 2 problems and at least 2 instances with zero or one non-Theorem outcome; distinct by problems + plan + instances".into()
     }
     fn run(&self, case: &Case) -> Outcome {
         let Some(bin) = cli::anthem_bin() else {
@@ -247,6 +247,13 @@ impl Check for C10 {
         let mut second = base_args(&saved2);
         second.push("-n".into());
         second.push(case.instances.to_string());
+        // the cores each prover may use: the default (option absent), automatic (0), or 1-3; together with
+        // `-n 0` both numbers are derived from the machine
+        let cores = Chooser::new(case.plan.clone()).aux(62, 5);
+        if cores < 4 {
+            second.push("-m".into());
+            second.push(cores.to_string());
+        }
         second.push("--time-limit".into());
         second.push("5".into());
         let argv: Vec<&str> = second.iter().map(|s| s.as_str()).collect();
